@@ -24,6 +24,7 @@ def variant_guard(f, bi, tyfrag):
     return out
 
 def check(F, rep, tier):
+    panics._F[0] = F
     # ---- R05.1 ------------------------------------------------------------------------------------
     pb = zfn(F, "precedence::PrecedenceOrder::pep440_based")
     if rep.anchor("R05.1", "PrecedenceOrder::pep440_based", pb):
@@ -149,11 +150,31 @@ def check(F, rep, tier):
     # ---- R05.4 reset table ------------------------------------------------------------------------------------
     if rep.anchor("R05.4", "Zerv::reset_lower_precedence_components", reset_fn):
         rep.fn_seen(reset_fn)
+        reset_fn = mir.inlined(F, reset_fn, depth=3)       # a per-level helper (reset_vars_component(&mut self.vars, level)) is seen through
         rows = {}
+        # `for x in order.iter().skip(current + 1)`: the loop body only sees strictly lower levels
+        def skip_strictness(bi):
+            dom = mir.dominators(reset_fn).get(bi, ())
+            for d_ in dom:
+                t_ = reset_fn.blocks[d_]["t"]
+                if t_[0] == "call" and (mir.callee(t_) or "").endswith("as std::iter::Iterator>::next") and "Skip<" in ((t_[1].get("targs") or [""])[0]):
+                    for b2, t2 in reset_fn.calls():
+                        if (mir.callee(t2) or "").endswith("Iterator::skip") and len(t2[2]) > 1:
+                            e = panics.describe_len(reset_fn, t2[2][1])
+                            if e and e[0] == "add" and e[-1] == 1: return True
+                            if e and e[0] in ("call", "local", "param", "unwrap"): return "ge"
+                            return None
+            return None
         for bi, si, st in reset_fn.stmts():
             if st[0] != "=" or len(st[1]) < 2: continue
             flds = [e for e in st[1][1:] if not isinstance(e, str) and e[0] in ("f", "d")]
             names = [e[2] if e[0] == "f" else "#" + e[1] for e in flds]
+            if "vars" not in names:
+                # a write through a `&mut ZervVars` (or `&mut PreReleaseVar`) that was taken from self.vars
+                base = []
+                for o in mir.trace_place(reset_fn, [st[1][0]], transparent=mir.TRANSPARENT + ("Option::<T>::as_mut",)):
+                    base = o.fields() or base
+                if "vars" in base: names = list(base) + names
             if "vars" not in names and "number" not in names: continue
             if "schema" in names: rep.bad("R05.4", "reset-writes-schema", "reset_lower_precedence_components writes a schema part", reset_fn.where())
             v = variant_guard(reset_fn, bi, "precedence::Precedence")
@@ -161,6 +182,9 @@ def check(F, rep, tier):
             for d, pol, dd in mir.guards_of(reset_fn, bi):
                 if d[0] == "bin" and ((d[1] == "Gt" and pol is True) or (d[1] == "Le" and pol is False)): strict = True
                 if d[0] == "bin" and ((d[1] == "Ge" and pol is True) or (d[1] == "Lt" and pol is False)): strict = "ge"
+            if strict is False:
+                sk = skip_strictness(bi)
+                strict = sk if sk is not None else None
             val = mir.sym_value(F, reset_fn, st[2][1]) if st[2][0] == "use" else mir.fmt_rv(st[2]) if hasattr(mir, "fmt_rv") else str(st[2][0])
             fld = ".".join(n for n in names if n not in ("vars",)).replace(".#", "#")
             if names[-1] == "number": fld = "pre_release#Some.0.number"
@@ -171,7 +195,8 @@ def check(F, rep, tier):
             if got is None: rep.bad("R05.4", "reset-row-missing:" + lvl, "bumping a higher level does not reset %s" % lvl, reset_fn.where()); continue
             okv = got[1].replace(" ", "") in (val, val.replace("Option::", "")) or got[1].endswith(val.split("::")[-1])
             okf = got[0] == fld or got[0].endswith(fld)
-            if got[2] is not True: rep.bad("R05.4", "reset-not-strict:" + lvl, "reset of %s is guarded by index >= current instead of index > current (the bumped level itself would be reset)" % lvl, reset_fn.where())
+            if got[2] is None: rep.undecided("R05.4", "reset-strictness:" + lvl, "cannot tell how the reset of %s is restricted to lower levels (no index comparison, no skip(current + 1))" % lvl, reset_fn.where())
+            elif got[2] is not True: rep.bad("R05.4", "reset-not-strict:" + lvl, "reset of %s is guarded by index >= current instead of index > current (the bumped level itself would be reset)" % lvl, reset_fn.where())
             elif okv and okf: rep.ok("R05.4", "%s -> %s = %s under index > current" % (lvl, fld, val), nontrivial_key=lvl)
             else: rep.bad("R05.4", "reset-row:" + lvl, "reset row for %s is %s = %s, expected %s = %s" % (lvl, got[0], got[1], fld, val), reset_fn.where())
         for lvl in rows:
@@ -266,6 +291,7 @@ def check(F, rep, tier):
             t = b["t"]
             if t[0] == "assert" and t[3].startswith("Overflow(Add") or (t[0] == "assert" and t[3].startswith("Overflow(Mul")):
                 if panics.const_bound(f, t[5][0]) is not None and panics.const_bound(f, t[5][1]) is not None: continue
+                if panics.collection_index(f, t[5][0]) and panics.const_bound(f, t[5][1]) is not None: continue      # index arithmetic (position + 1), not a version number
                 n_unchecked += 1
                 rep.bad("R05.8", "unchecked-add:" + p.replace("crate::", ""), "bump arithmetic uses an unchecked `+`: it panics in debug builds and wraps silently in release builds", "%s bb%d line %s" % (f.where(), bi, b["line"]))
     if n_unchecked == 0: rep.ok("R05.8", "no unchecked addition in version::zerv::bump", nontrivial_key="noadd")
